@@ -74,6 +74,12 @@ CORPUS = [
     dict(tree=('fn', 'sqrt', _X), x=[0.0011, 1.0], method='central', n=1, order=2, shape=[2]),           # 2eb6030
     dict(tree=('fn', 'exp', ('mul', ('ci', 1.0), _X)), x=[0.5], method='central', n=1, order=2, cplx=True),   # 4b12ea2
     dict(tree=('fn', 'sin', _X), x=[0.3, 1.2, 2.0], method='multicomplex', n=1, order=2, shape=[3]),     # 8280d5f
+    # the variable used again after a function was applied to it directly (a function of a number does not change the number)
+    dict(tree=('mul', _X, ('fn', 'arcsinh', _X)), x=[-0.7], method='multicomplex', n=2, order=2),
+    dict(tree=('add', ('fn', 'arcsinh', _X), ('fn', 'exp', _X)), x=[-3.0], method='multicomplex', n=1, order=2),
+    dict(tree=('mul', ('fn', 'arctan', _X), _X), x=[-0.4], method='multicomplex', n=1, order=2),
+    dict(tree=('sub', ('fn', 'tanh', _X), ('mul', _X, _X)), x=[-1.3], method='multicomplex', n=2, order=2),
+    dict(tree=('mul', ('fn', 'sqrt', _X), _X), x=[2.5], method='complex', n=1, order=2),
     # arrays that mix a point whose larger steps leave the domain (not judged itself) with points far inside it, higher n: what
     # happens to the first element's table must not cost the others their large steps
     dict(tree=('fn', 'log', _X), x=[0.02, 1.0, 5.0], method='central', n=4, order=2, shape=[3]),
